@@ -3,7 +3,7 @@
 From Coq Require Import List ZArith Bool Lia Permutation.
 From SVC Require Import Base.AMap Base.Res Base.Dec Model.Types Model.Pricing
   Model.Handlers Model.EndBlock Model.Step Proofs.Inv Proofs.Lemmas Proofs.InvWf Proofs.PFrame
-  Proofs.InvIndex Proofs.InvEarn Proofs.ReachRun.
+  Proofs.InvIndex Proofs.InvEarn Proofs.ReachRun Proofs.DecProofs.
 Import ListNotations.
 Open Scope Z_scope.
 
@@ -313,3 +313,109 @@ Example C15_binding_identity_ex :
   /\ (exists b, get (1, 7) (binds ex_s) = Some b /\ b_owner b = 42)
   /\ get 7 (owner_of ex_s) = Some 42.
 Proof. vm_compute. repeat split; eexists; split; reflexivity. Qed.
+
+(* ------------------------------------------------------------------ *)
+(* C13: how a fee is earned (keeper.AddEarnedFee inside a valid response) *)
+
+Lemma get0_add_to_any {K} `{EqDec K} (k k' : K) e (m : amap K Z) : posm m -> 0 <= e ->
+  get0 k' (add_to k e m) = get0 k' m + (if eqb k' k then e else 0).
+Proof.
+  intros Hp He. rewrite get0_add_to by assumption.
+  destruct (eqb_spec k' k) as [->|]; lia.
+Qed.
+
+Theorem C13_add_earned cfg s r prov fee s1 :
+  wf_cfg cfg -> Inv cfg s -> 0 <= fee -> add_earned_fee cfg s r prov fee = Ok s1 ->
+  let tax := mul_trunc fee (p_tax cfg) in
+  0 <= tax <= fee
+  /\ exists o, get prov (owner_of s) = Some o
+     /\ (forall p, get0 p (earned s1) = get0 p (earned s) + (if eqb p prov then fee - tax else 0))
+     /\ (forall o', get0 o' (own_earned s1)
+                    = get0 o' (own_earned s) + (if eqb o' o then fee - tax else 0))
+     /\ (forall a, bal s1 a = bal s a - (if eqb a Escrow then tax else 0)
+                                       + (if eqb a FeeColl then tax else 0))
+     /\ owner_of s1 = owner_of s.
+Proof.
+  intros Hcfg HI Hfee H tax.
+  pose proof (inv_wf _ _ HI) as Hwf. pose proof (inv_earn _ _ HI) as (E1 & E2 & E3).
+  assert (Hp1 : posm (earned s)) by (intros p v Hin; now apply E1 in Hin).
+  assert (Htax : 0 <= tax <= fee).
+  { apply mul_trunc_bounds; [exact Hfee|]. destruct Hcfg as (_ & _ & _ & Ht & _). lia. }
+  split; [exact Htax|].
+  unfold add_earned_fee in H. fold tax in H. inv_ok H. rename a into sa.
+  pose proof (cf_transfer _ _ _ _ _ Ha) as [_ _ _ F4 _ _ _ F8 F9].
+  pose proof (fun a => transfer_bal _ _ _ _ _ a Ha) as Hbal.
+  sproj. rewrite F4 in H.
+  destruct (get prov (owner_of s)) as [o|] eqn:Eo; inv_ok H. subst s1. sproj.
+  exists o. split; [reflexivity|]. rewrite F4, F8, F9.
+  split; [intros p; apply get0_add_to_any; [exact Hp1|lia]|].
+  split; [intros o'; apply get0_add_to_any; [exact E2|lia]|].
+  split; [exact Hbal|reflexivity].
+Qed.
+
+(* the Panic branch of AddEarnedFee (provider without owner) is unreachable for the
+   provider of a stored request, and the tax never exceeds the fee *)
+Theorem C13_add_earned_no_panic cfg s r q :
+  wf_cfg cfg -> Inv cfg s -> get r (reqs s) = Some q ->
+  add_earned_fee cfg s r (r_prov q) (r_fee q) <> Panic
+  /\ (bal s Escrow >= mul_trunc (r_fee q) (p_tax cfg) ->
+      exists s1, add_earned_fee cfg s r (r_prov q) (r_fee q) = Ok s1).
+Proof.
+  intros Hcfg HI Hq.
+  destruct (inv_req _ _ HI) as (R1 & _). destruct (R1 _ _ (get_In _ _ _ Hq)) as (rc & Hx).
+  assert (Hfee : 0 <= r_fee q) by tauto.
+  assert (Hown : has (r_prov q) (owner_of s) = true) by tauto.
+  assert (Htax : 0 <= mul_trunc (r_fee q) (p_tax cfg) <= r_fee q).
+  { apply mul_trunc_bounds; [exact Hfee|]. destruct Hcfg as (_ & _ & _ & Ht & _). lia. }
+  unfold add_earned_fee.
+  destruct (transfer Escrow FeeColl (mul_trunc (r_fee q) (p_tax cfg)) s) as [sa|] eqn:Et.
+  - pose proof (cf_transfer _ _ _ _ _ Et) as [_ _ _ F4 _ _ _ _ _].
+    cbn [of_opt bind]. replace (mul_trunc (r_fee q) (p_tax cfg) <=? r_fee q) with true
+      by (symmetry; apply Z.leb_le; lia).
+    cbn [guard]. sproj. rewrite F4. unfold has in Hown.
+    destruct (get (r_prov q) (owner_of s)); [|discriminate].
+    split; [discriminate|eauto].
+  - cbn [of_opt bind]. split; [discriminate|].
+    intros Hb. exfalso. unfold transfer in Et.
+    destruct ((mul_trunc (r_fee q) (p_tax cfg) <? 0)
+              || (bal s Escrow <? mul_trunc (r_fee q) (p_tax cfg))) eqn:E; [|discriminate].
+    apply orb_true_iff in E. destruct E as [E|E]; b2p; lia.
+Qed.
+
+(* a response: either the fee is earned (valid output) and the records grow by fee - tax,
+   or the provider is slashed and the earned-fee records do not change *)
+Theorem C13_respond cfg s r who code out out_valid ok s' :
+  wf_cfg cfg -> Inv cfg s -> h_respond cfg s r who code out out_valid ok = Ok s' ->
+  exists q, get r (reqs s) = Some q /\ who = r_prov q /\ r_active q = true
+  /\ owner_of s' = owner_of s
+  /\ ((negb (out =? 0) && negb out_valid = true /\ eframe s s')
+      \/ (negb (out =? 0) && negb out_valid = false
+          /\ let e := r_fee q - mul_trunc (r_fee q) (p_tax cfg) in
+             0 <= e
+             /\ exists o, get who (owner_of s) = Some o
+                /\ (forall p, get0 p (earned s') = get0 p (earned s) + (if eqb p who then e else 0))
+                /\ (forall o', get0 o' (own_earned s')
+                               = get0 o' (own_earned s) + (if eqb o' o then e else 0)))).
+Proof.
+  intros Hcfg HI H. pose proof (sframe_respond _ _ _ _ _ _ _ _ _ H) as [_ Foo _ _ _ _ _].
+  apply respond_inv in H.
+  destruct H as (q & rc0 & s1 & rc & _ & Hq & Hrc0 & -> & Hact & Hset & Hrc & ->).
+  exists q. split; [exact Hq|]. split; [reflexivity|]. split; [exact Hact|]. split; [exact Foo|].
+  assert (Hff : fframe s1 (resp_finish (resp_mid s1 r (r_prov q) rc0 code out) (rid_ctx r) rc)).
+  { eapply fframe_trans; [apply ff_resp_mid|apply ff_resp_finish]. }
+  destruct Hff as [_ [G1 G2]].
+  destruct Hset as [[Hb (sa & Es & Er)]|[Hb Ea]]; [left|right]; (split; [exact Hb|]).
+  - assert (Hf1 : fframe s s1).
+    { eapply fframe_trans; [eapply ff_slash; eauto|eapply ff_refund_fee; eauto]. }
+    destruct Hf1 as [_ [K1 K2]]. constructor; congruence.
+  - destruct (inv_req _ _ HI) as (R1 & _). destruct (R1 _ _ (get_In _ _ _ Hq)) as (rc1 & Hx).
+    assert (Hfee : 0 <= r_fee q) by tauto.
+    destruct (C13_add_earned _ _ _ _ _ _ Hcfg HI Hfee Ea) as (Htax & o & Ho & A1 & A2 & _ & _).
+    cbv zeta. split; [lia|]. exists o. split; [exact Ho|]. rewrite G1, G2. split; assumption.
+Qed.
+
+Example C13_respond_ex :
+  let s := run ex_cfg ex_s0 (firstn 7 ex_ops) in
+  exists s', h_respond ex_cfg s (ex_c, 1, 1, 0) 7 0 0 true true = Ok s'
+    /\ get0 7 (earned s') = 95 /\ get0 42 (own_earned s') = 95 /\ bal s' FeeColl = 5.
+Proof. eexists. split; [vm_compute; reflexivity|]. vm_compute. repeat split. Qed.
